@@ -29,6 +29,9 @@ func runC14(c *Ctx) {
 	c14R4(c, "C14.R4")
 	c14R5(c, "C14.R5")
 	c14R6(c, "C14.R6")
+	c.importing = "C02"
+	c02R6(c, "C02.R6")
+	c.importing = ""
 }
 
 type c14Anchors struct {
